@@ -16,12 +16,9 @@
 //
 //	Iter/Merged.v, Iter/Indexed.v, Iter/DBIter.v are run on them inside Coq (Corr/C02Run.v).
 //
-// d5 note: on a tree where tFiles.getOverlaps orders user keys with bytes.Compare instead of the
-// comparer (a defect of the compaction picker, property C01/C06, not of the iterators), table
-// compactions under a non-bytewise comparer produce overlapping tables and every read is wrong.  The
-// harness probes for it (leveldb.VerifGetOverlapsHonoursComparer) and, while it is present, keeps the
-// DB programs of the comparers it affects on level-0-only layouts (no table compaction); it says so in
-// result.json (extra.d5_probe).
+// d5 note: tFiles.getOverlaps once ordered user keys with bytes.Compare instead of the comparer
+// (defect D5, fixed f13b806).  The probe leveldb.VerifGetOverlapsHonoursComparer is kept as a reported
+// statistic only (extra.d5_probe); it restricts nothing: every comparer gets every layout.
 package main
 
 import (
@@ -112,12 +109,9 @@ func main() {
 		d5[fmt.Sprintf("comparer_%d_getOverlaps_follows_comparer", cid)] = honours[cid]
 	}
 	res.Extra["d5_probe"] = d5
-	res.Extra["not_generated"] = []string{
-		"inverted ranges (Start > Limit): DB.NewIterator panics in tFiles.newIndexIterator (tf[start:limit]) when a level >= 1 holds tables between the bounds",
-		"BlockCacheEvictRemoved=false: after Transaction.Discard the removed table's file number is reused and reads are served from the stale blocks still in the block cache (findings/C02_stale_block_cache_after_discard.json)",
-		"a transaction (explicit, or a batch larger than the write buffer) opened while a frozen memdb is still being flushed (defect D6 of DESIGN.md 2.3)",
-	}
-	allowTableComp := func(cid int) bool { return honours[cid] }
+	// every former exclusion (inverted ranges, BlockCacheEvictRemoved=false, transactions over a pending
+	// flush, deeper levels under non-bytewise comparers) is generated now that the defects are repaired
+	res.Extra["not_generated"] = []string{}
 
 	const W = 16
 	master := vlib.NewRNG(a.Seed)
@@ -172,7 +166,7 @@ func main() {
 						kc = &o.kdb
 					}
 				}
-				c = genDBCase(r, small, mm, allowTableComp)
+				c = genDBCase(r, small, mm)
 				label := fmt.Sprintf("db/%d", i)
 				_, walks, nt := runDBCase(c, res, label, kc, kMaxRaw, kMaxMoves)
 				res.Count("db_programs", 1)
@@ -181,6 +175,9 @@ func main() {
 				res.Count(fmt.Sprintf("db_cmp_%d", c.Cid), 1)
 				if c.Opts.NoTableComp {
 					res.Count("db_programs_level0_only", 1)
+				}
+				if c.Opts.KeepRemovedBlocks {
+					res.Count("db_opt_keep_removed_blocks", 1)
 				}
 				if c.Opts.Snappy {
 					res.Count("db_opt_snappy", 1)
